@@ -344,9 +344,18 @@ func RunC12(c *sim.Ctx, pkg *C12Pkg) {
 		return perm
 	})
 	pkg.NewPool(h)
+	// In a quarter of the runs only the first assembler exists when traffic
+	// starts: the others (and the flusher's) are created on the pool by their
+	// own goroutines when they first need them, while the pool is in use.
+	lateJoin := c.Chance(250)
+	if lateJoin {
+		c.Fault("assemblers_join_a_pool_in_use")
+	}
 	asms := make([]C12Asm, nworkers)
 	for i := range asms {
-		asms[i] = pkg.NewAssembler()
+		if i == 0 || !lateJoin {
+			asms[i] = pkg.NewAssembler()
+		}
 	}
 	for wi := 0; wi < nworkers; wi++ {
 		wi := wi
@@ -372,6 +381,9 @@ func RunC12(c *sim.Ctx, pkg *C12Pkg) {
 				tcp, buf := p.TCP(j.pk)
 				w.Rec("call_enter", int64(j.pk.Dir), int64(j.pk.Off), int64(j.pk.Len)<<2|b2i(j.pk.SYN)<<1|b2i(j.pk.FIN), "assemble", nil)
 				w.Yield(siteCallStart)
+				if asms[wi] == nil {
+					asms[wi] = pkg.NewAssembler()
+				}
 				asms[wi].Assemble(d.Net, tcp, T(j.at))
 				for i := range buf {
 					buf[i] = 0xEE
@@ -382,7 +394,10 @@ func RunC12(c *sim.Ctx, pkg *C12Pkg) {
 		})
 	}
 	if flusher {
-		fa := pkg.NewAssembler()
+		var fa C12Asm
+		if !lateJoin {
+			fa = pkg.NewAssembler()
+		}
 		cut := make([]int64, nfl)
 		all, closing := flAll, flClosing
 		for i := range cut {
@@ -393,6 +408,9 @@ func RunC12(c *sim.Ctx, pkg *C12Pkg) {
 			for i := range cut {
 				w.Rec("call_enter", int64(i), cut[i], b2i(all[i]), "flush", nil)
 				w.Yield(siteCallStart)
+				if fa == nil {
+					fa = pkg.NewAssembler()
+				}
 				switch {
 				case all[i]:
 					fa.FlushAll()
